@@ -78,7 +78,10 @@ class Module:
         self.units = {}
         stubs = stubs or {}
         class_state = class_state or {}
+        self.env.vars.update(stubs)  # visible while class bodies / bases are evaluated
         for n in self.tree.body:
+            if isinstance(n, (ast.FunctionDef, ast.AsyncFunctionDef, ast.ClassDef)) and n.name in stubs:
+                continue
             if isinstance(n, (ast.Import, ast.ImportFrom)):
                 for a in n.names:
                     name = a.asname or a.name.split(".")[0]
